@@ -503,6 +503,41 @@ def run(ctx: Any, prog: Program) -> None:
 
     for modname, clsname, meth, extra in COPIES:
         analyse_copy(ctx, prog, modname, clsname, meth, extra)
+    # ---- P5: what decides whether an optional part is copied is its presence, not its truth value ------------------------------------
+    ctx.rule('C09.P5', 'copy methods test optional fields with `is None` / `is not None`: a present but falsy value (Vec(0, 0, 0), an empty list) is still copied', floor=1)
+    FALSY_BUILTINS = {'list', 'List', 'dict', 'Dict', 'set', 'Set', 'tuple', 'Tuple', 'str', 'int', 'float', 'bytes', 'Sequence', 'Mapping', 'MutableMapping'}
+
+    def can_be_falsy(ann: Optional[str]) -> bool:
+        toks = ann_tokens(ann or '') - {'Optional', 'Union', 'None'}
+        if toks & FALSY_BUILTINS:
+            return True
+        for t in toks:
+            for m_ in (vm, mt):
+                if m_.has_class(t):
+                    meths_ = all_methods(prog, m_, t) if m_ is mt else {k: (t, v) for k, v in m_.methods(t).items()}
+                    if '__bool__' in meths_ or '__len__' in meths_:
+                        return True
+        return False
+    n_p5 = 0
+    for modname, clsname, meth, extra in COPIES:
+        mod5 = prog.module(modname)
+        if mod5 is not vm:
+            continue
+        fn5 = mod5.func(f'{clsname}.{meth}')
+        types5 = field_types(mod5, clsname)
+        for i5 in [n for n in walk_no_nested(fn5) if isinstance(n, (ast.If, ast.IfExp))]:
+            operands = i5.test.values if isinstance(i5.test, ast.BoolOp) else [i5.test]
+            for op5 in operands:
+                inner = op5.operand if isinstance(op5, ast.UnaryOp) and isinstance(op5.op, ast.Not) else op5
+                if isinstance(inner, ast.Attribute) and dotted(inner.value) == 'self' and 'None' in (types5.get(inner.attr) or '') or \
+                        (isinstance(inner, ast.Attribute) and dotted(inner.value) == 'self' and 'Optional' in (types5.get(inner.attr) or '')):
+                    n_p5 += 1
+                    ctx.check('C09.P5', not can_be_falsy(types5.get(inner.attr)), vm, i5, f'{clsname}.{meth} decides with the truth value of self.{inner.attr} ({types5.get(inner.attr)}) whether that part is copied: a value that is '
+                              'present but falsy (a zero vector, an empty list) is treated like an absent one and the copy silently loses it', func=f'{clsname}.{meth}', text=f'{clsname}.{meth}: self.{inner.attr} tested by identity')
+                elif isinstance(inner, ast.Compare) and len(inner.ops) == 1 and isinstance(inner.ops[0], (ast.Is, ast.IsNot)) and isinstance(inner.left, ast.Attribute) and dotted(inner.left.value) == 'self':
+                    n_p5 += 1
+                    ctx.check('C09.P5', True, vm, i5, 'identity test', func=f'{clsname}.{meth}', text=f'{clsname}.{meth}: self.{inner.left.attr} tested by identity')
+    probe5 = types5 = None
     # EntityFixup copies: shared FixupValue objects
     for meth in ('copy_values', '__copy__', '__deepcopy__'):
         fn = vm.func('EntityFixup.' + meth)
@@ -513,6 +548,14 @@ def run(ctx: Any, prog: Program) -> None:
             exprs = [n.value for n in walk_no_nested(fn) if isinstance(n, ast.Assign) and any(isinstance(t, ast.Attribute) and t.attr == '_fixup' for t in n.targets)]
         if not exprs:
             raise AnalysisError(f'EntityFixup.{meth}: no value expression found')
+        # a FixupValue built for the copy takes each field from the same field of the source value (the dictionary key is the *folded* name)
+        fv_fields = [f for f, _ in attrs_fields(vm, 'FixupValue')]
+        for c_ in [c for c in ast.walk(fn) if isinstance(c, ast.Call) and dotted(c.func) == 'FixupValue' and len(c.args) == len(fv_fields)]:
+            for i_, (a_, f_) in enumerate(zip(c_.args, fv_fields)):
+                inner_ = a_.args[0] if isinstance(a_, ast.Call) and dotted(a_.func) in ('intern', 'sys.intern', 'str') and len(a_.args) == 1 else a_
+                ok_ = isinstance(inner_, ast.Attribute) and inner_.attr == f_ and isinstance(inner_.value, ast.Name)
+                ctx.check('C09.P1', ok_, vm, c_, f'EntityFixup.{meth} builds the copied FixupValue with {f_}=`{U(a_)[:40]}` instead of the source value\'s .{f_}'
+                          + (' (the dictionary key is the case-folded name: the copy exports `$door_name` for `$Door_Name`)' if f_ == 'var' else ''), func='EntityFixup.' + meth, text=f'EntityFixup.{meth}: FixupValue.{f_} from the same field')
         for e in exprs:
             st, why = ca.copy_status(e, True)
             if st == 'unknown':
@@ -596,6 +639,9 @@ def run(ctx: Any, prog: Program) -> None:
 
 
 MUTANTS = [
+    {'id': 'side_copy_disp_by_truthiness', 'file': 'vmf.py', 'find': "        if self.is_disp:\n            assert self.disp_pos is not None\n            assert self._disp_verts is not None\n            new_side.disp_flags = self.disp_flags", 'replace': "        if self.is_disp and self.disp_pos and self._disp_verts:\n            new_side.disp_flags = self.disp_flags", 'expect': 'C09.P5'},
+    {'id': 'ok_side_copy_disp_by_identity', 'file': 'vmf.py', 'find': "        if self.is_disp:\n            assert self.disp_pos is not None\n            assert self._disp_verts is not None\n            new_side.disp_flags = self.disp_flags", 'replace': "        if self.is_disp and self.disp_pos is not None and self._disp_verts is not None:\n            new_side.disp_flags = self.disp_flags", 'expect': None},
+    {'id': 'fixup_copy_var_from_key', 'file': 'vmf.py', 'find': "        return [FixupValue(fix.var, fix.value, fix.id) for fix in self._fixup.values()]", 'replace': "        return [FixupValue(var, fix.value, fix.id) for var, fix in self._fixup.items()]", 'expect': 'C09.P1'},
     {'id': 'kv_add_delegates_to_append', 'file': 'keyvalues.py', 'find': "                copy._value.append(other.copy())", 'replace': "                copy.append(other)", 'expect': 'C09.P4'},
     {'id': 'kv_add_delegates_to_append_copy', 'file': 'keyvalues.py', 'find': "                copy._value.append(other.copy())", 'replace': "                copy.append(other.copy())", 'expect': None},
     {'id': 'vec_matmul_identity_returns_operand', 'file': 'math.py', 'find': "        elif isinstance(other, AngleBase):\n            mat = Py_Matrix.from_angle(other)\n        else:\n            return NotImplemented\n        res = type(self)(self._x, self._y, self._z)", 'replace': "        elif isinstance(other, AngleBase):\n            if other._pitch == 0.0 and other._yaw == 0.0 and other._roll == 0.0:\n                return self\n            mat = Py_Matrix.from_angle(other)\n        else:\n            return NotImplemented\n        res = type(self)(self._x, self._y, self._z)", 'expect': 'C09.P3'},
